@@ -12,9 +12,9 @@ import (
 )
 
 type CsvCase struct {
-	Header  []string   `json:"header"`  // hex
-	Records [][]string `json:"records"` // hex
-	Raw     string     `json:"raw,omitempty"` // hex: raw file content for malformed cases (then Header/Records unused)
+	Header  []string   `json:"header"`           // hex
+	Records [][]string `json:"records"`          // hex
+	Raw     string     `json:"raw,omitempty"`    // hex: raw file content for malformed cases (then Header/Records unused)
 	RawOK   bool       `json:"raw_ok,omitempty"` // Raw is well-formed and means exactly Header/Records
 	Big     bool       `json:"big"`
 	Present string     `json:"present"` // "" | garbage | index : pre-existing output
@@ -188,12 +188,12 @@ func goNormalize(h string) string {
 }
 
 var malformedCSVs = []string{
-	"a,b\n1,2\n3\n",          // ragged (short)
-	"a,b\n1,2,3\n",           // ragged (long)
-	"a,b\n1,\"2\n",           // unterminated quote
-	"a,b\n1,2\"x\n",          // bare quote
-	"a,b\n1,2\n\"x\"y,3\n",   // quote in the middle
-	"",                       // no header at all
+	"a,b\n1,2\n3\n",           // ragged (short)
+	"a,b\n1,2,3\n",            // ragged (long)
+	"a,b\n1,\"2\n",            // unterminated quote
+	"a,b\n1,2\"x\n",           // bare quote
+	"a,b\n1,2\n\"x\"y,3\n",    // quote in the middle
+	"",                        // no header at all
 	"a,b\n1,2\n3,4\n5\n6,7\n", // ragged in the middle
 }
 
